@@ -9,6 +9,7 @@
 #include <rapidcheck.h>
 #include <bits/stdc++.h>
 #include <shared_mutex>
+#include "../vrt/rbtree_visible.hpp"      // std::map / std::set link and rebalance code compiled with the sanitizer (libstdc++.so's is invisible to TSan)
 
 namespace rtstd {
 using namespace ::std;
@@ -66,6 +67,10 @@ struct shared_timed_mutex {
 #include <concurrency/SearchableObjectHolder.hpp>
 #undef std
 #include "../vrt/harness.hpp"
+
+// Results of queries are *used*: a call whose result is discarded can be removed entirely by the optimiser once a (seeded) change has
+// taken the lock - its only side effect - out of it, and then no sanitizer can see the unprotected read.
+template<class T> inline void keep(const T& v) { asm volatile("" : : "r,m"(v) : "memory"); }
 
 namespace lg = gmlc::libguarded;
 namespace gc = gmlc::concurrency;
@@ -135,7 +140,7 @@ void sj_guarded(const vh::Case& c, Failure& F, int reps) {
             switch (op.code % 7) {
                 case 0: { auto h = g.lock(); h->push_back(t); pushes++; break; }
                 case 1: { auto h = g.try_lock(); if (h) { h->push_back(t); pushes++; } break; }
-                case 2: { Payload p = g.load(); (void)p.size(); break; }
+                case 2: { Payload p = g.load(); keep(p.size()); break; }
                 case 3: { Payload p = g.load(); p.push_back(1); g.store(p); break; }      // not atomic as a whole, but each half is
                 case 4: { auto h = go.lock(); h->push_back(t); break; }
                 case 5: { if constexpr (std::is_same<M, rtstd::timed_mutex>::value) { auto h = g.try_lock_for(std::chrono::microseconds(50)); if (h) h->push_back(t); } else { auto h = go.try_lock(); if (h) h->push_back(t); } break; }
@@ -155,13 +160,13 @@ void sj_shared(const vh::Case& c, Failure& F, int reps) {
             jitter(op.b);
             switch (op.code % 8) {
                 case 0: { auto h = g.lock(); h->push_back(t); break; }
-                case 1: { auto h = g.lock_shared(); long s = 0; for (int v : *h) s += v; (void)s; break; }
-                case 2: { auto h = g.try_lock_shared(); if (h) (void)h->size(); break; }
+                case 1: { auto h = g.lock_shared(); long s = 0; for (int v : *h) s += v; keep(s); break; }
+                case 2: { auto h = g.try_lock_shared(); if (h) keep(h->size()); break; }
                 case 3: { auto h = g.try_lock(); if (h) h->push_back(t); break; }
                 case 4: { auto h = go.lock(); h->push_back(t); break; }
-                case 5: { auto h = go.lock_shared(); (void)h->size(); break; }
-                case 6: { if constexpr (std::is_same<M, rtstd::shared_timed_mutex>::value) { auto h = g.try_lock_shared_for(std::chrono::microseconds(50)); if (h) (void)h->size(); auto h2 = g.try_lock_for(std::chrono::microseconds(50)); if (h2) h2->push_back(t); } break; }
-                default: { const auto& cg = g; auto h = cg.lock(); (void)h->size(); break; }
+                case 5: { auto h = go.lock_shared(); keep(h->size()); break; }
+                case 6: { if constexpr (std::is_same<M, rtstd::shared_timed_mutex>::value) { auto h = g.try_lock_shared_for(std::chrono::microseconds(50)); if (h) keep(h->size()); auto h2 = g.try_lock_for(std::chrono::microseconds(50)); if (h2) h2->push_back(t); } break; }
+                default: { const auto& cg = g; auto h = cg.lock(); keep(h->size()); break; }
             }
         }
     });
@@ -175,11 +180,11 @@ void sj_ordered(const vh::Case& c, Failure& F, int reps) {
             jitter(op.b);
             switch (op.code % 6) {
                 case 0: g.modify([&](Payload& p) { p.push_back(t); }); break;
-                case 1: g.read([&](const Payload& p) { long s = 0; for (int v : p) s += v; (void)s; }); break;
-                case 2: { auto h = g.lock_shared(); (void)h->size(); break; }
-                case 3: { Payload p = g.load(); (void)p; break; }
+                case 1: g.read([&](const Payload& p) { long s = 0; for (int v : p) s += v; keep(s); }); break;
+                case 2: { auto h = g.lock_shared(); keep(h->size()); break; }
+                case 3: { Payload p = g.load(); keep(p); break; }
                 case 4: { g.store(Payload{t}); break; }
-                default: { auto h = g.try_lock_shared(); if (h) (void)h->size(); break; }
+                default: { auto h = g.try_lock_shared(); if (h) keep(h->size()); break; }
             }
         }
     });
@@ -193,7 +198,7 @@ void sj_lr(const vh::Case& c, Failure& F, int reps) {
         for (int r = 0; r < reps; ++r) for (auto& op : c.fibers[(size_t)t]) {
             jitter(op.b);
             if (op.code % 3 == 0) { g.modify([&](Payload& p) { p.push_back(t); }); mods++; }
-            else { auto h = g.lock_shared(); size_t n = h->size(); long s = 0; for (int v : *h) s += v; jitter(op.a); if (h->size() != n) F.report("unstable-read", "lr_guarded value changed under a held handle"); (void)s; }
+            else { auto h = g.lock_shared(); size_t n = h->size(); long s = 0; for (int v : *h) s += v; jitter(op.a); if (h->size() != n) F.report("unstable-read", "lr_guarded value changed under a held handle"); keep(s); }
         }
     });
     auto h = g.lock_shared();
@@ -224,7 +229,7 @@ void sj_pod_mix(const vh::Case& c, Failure& F, int reps) {
                 case 6: { auto h = lr.lock_shared(); ok(*h, "lr_guarded handle"); jitter(op.a & 3); ok(*h, "lr_guarded handle (held)"); break; }
                 case 7: { auto h = cow.lock(); h->a = mine; h->b = mine; break; }
                 case 8: { auto s2 = (op.a & 1) ? cow.try_lock_shared() : cow.lock_shared(); if (s2) ok(*s2, "cow snapshot"); break; }
-                case 9: { auto h = rl.lock_read(); long sum = 0; for (auto it = h->begin(); it != h->end(); it++) sum += *it; (void)sum; break; }
+                case 9: { auto h = rl.lock_read(); long sum = 0; for (auto it = h->begin(); it != h->end(); it++) sum += *it; keep(sum); break; }
                 case 10: { auto h = rl.lock_write(); h->push_front(t); break; }
                 default: { auto h = rl.lock_write(); auto it = h->begin(); if (it != h->end()) h->erase(it); break; }
             }
@@ -245,7 +250,7 @@ void sj_cow(const vh::Case& c, Failure& F, int reps) {
                 case 2: { auto s = (op.a % 4 == 0) ? g.lock_shared() : (op.a % 4 == 1) ? g.try_lock_shared() : (op.a % 4 == 2) ? g.try_lock_shared_for(std::chrono::microseconds(10)) : g.try_lock_shared_until(std::chrono::steady_clock::now() + std::chrono::microseconds(10));
                           if (!s) { F.report("null-handle", "cow shared acquisition returned null"); break; }
                           size_t n = s->size(); jitter(op.a); if (s->size() != n) F.report("snapshot-changed", "cow snapshot changed"); if (kept.size() < 4) kept.push_back(s); break; }
-                default: { for (auto& s : kept) { long x = 0; for (int v : *s) x += v; (void)x; } kept.clear(); break; }
+                default: { for (auto& s : kept) { long x = 0; for (int v : *s) x += v; keep(x); } kept.clear(); break; }
             }
         }
     });
@@ -261,8 +266,8 @@ void sj_deferred(const vh::Case& c, Failure& F, int reps) {
             switch (op.code % 4) {
                 case 0: g.modify_detach([t](Payload& p) { p.push_back(t); }); subs++; break;
                 case 1: { auto f = g.modify_async([t](Payload& p) { p.push_back(t); return (int)p.size(); }); subs++; (void)f; break; }
-                case 2: { auto h = g.lock_shared(); long s = 0; for (int v : *h) s += v; jitter(op.a); (void)s; break; }
-                default: { auto h = g.try_lock_shared(); if (h) (void)h->size(); break; }
+                case 2: { auto h = g.lock_shared(); long s = 0; for (int v : *h) s += v; jitter(op.a); keep(s); break; }
+                default: { auto h = g.try_lock_shared(); if (h) keep(h->size()); break; }
             }
         }
     });
@@ -277,11 +282,11 @@ void sj_rcu(const vh::Case& c, Failure& F, int reps) {
         for (int r = 0; r < reps; ++r) for (auto& op : c.fibers[(size_t)t]) {
             jitter(op.b);
             switch (op.code % 5) {
-                case 0: { auto h = g.lock_read(); size_t n = 0; for (auto it = h->begin(); it != h->end(); ++it) { n += it->size(); jitter(op.a & 1); } (void)n; break; }
+                case 0: { auto h = g.lock_read(); size_t n = 0; for (auto it = h->begin(); it != h->end(); ++it) { n += it->size(); jitter(op.a & 1); } keep(n); break; }
                 case 1: { auto h = g.lock_write(); h->push_back("pushed-by-a-writer-thread-long-string-" + std::to_string(t)); break; }
                 case 2: { auto h = g.lock_write(); h->emplace_front("emplaced-at-the-front-long-string-" + std::to_string(t)); break; }
                 case 3: { auto h = g.lock_write(); auto it = h->begin(); for (int k = 0; k < op.a % 3 && it != h->end(); ++k) ++it; if (it != h->end()) h->erase(it); break; }
-                default: { auto h = g.lock_read(); (void)h->begin(); break; }
+                default: { auto h = g.lock_read(); keep(h->begin()); break; }
             }
         }
     });
@@ -360,8 +365,8 @@ void sj_dd(const vh::Case& c, Failure& F, int reps) {
                     case 0: dd.addObjectsToBeDestroyed(std::make_shared<DDObj>(t)); break;
                     case 1: { auto p = std::make_shared<DDObj>(t); mine.push_back(p); dd.addObjectsToBeDestroyed(p); break; }
                     case 2: if (!mine.empty()) mine.pop_back(); break;
-                    case 3: (void)dd.destroyObjects(); break;
-                    default: (void)dd.size(); break;
+                    case 3: keep(dd.destroyObjects()); break;
+                    default: keep(dd.size()); break;
                 }
             }
         });
@@ -377,16 +382,21 @@ void sj_soh(const vh::Case& c, Failure& F, int reps) {
         for (int r = 0; r < reps; ++r) for (auto& op : c.fibers[(size_t)t]) {
             jitter(op.b);
             const char* n1 = names[op.a % 4]; const char* n2 = names[(op.a / 4) % 4];
-            switch (op.code % 9) {
+            switch (op.code % 10) {
+                case 9: soh.addType(n1, op.b % 3); break;
                 case 0: soh.addObject(n1, std::make_shared<SObj>(t)); break;
                 case 1: soh.addObject(n1, std::make_shared<SObj>(t), op.b % 3); break;
                 case 2: soh.removeObject(std::string(n1)); break;
                 case 3: soh.removeObject([t](const std::shared_ptr<SObj>& p) { return p->v[0] == t; }); break;
                 case 4: { auto p = soh.findObject(std::string(n1)); if (p && p->v.size() != 4) F.report("dead-object", "object returned by findObject is broken"); break; }
-                case 5: { auto p = soh.findObject([](const std::shared_ptr<SObj>& q) { return q->v[0] >= 0; }); if (p) (void)p->v[0]; break; }
+                case 5: { auto p = soh.findObject([](const std::shared_ptr<SObj>& q) { return q->v[0] >= 0; }); if (p) keep(p->v[0]); break; }
                 case 6: soh.copyObject(n1, n2); break;
-                case 7: { auto v = soh.getObjects(); for (auto& p : v) (void)p->v.size(); break; }
-                default: (void)soh.checkObjectType(n1, op.b % 3); (void)soh.empty(); (void)soh.findObject([](const std::shared_ptr<SObj>&) { return true; }, op.b % 3); break;
+                case 7: { auto v = soh.getObjects(); for (auto& p : v) keep(p->v.size()); break; }
+                default: switch (op.a % 3) {
+                             case 0: keep(soh.checkObjectType(n1, op.b % 3)); break;
+                             case 1: keep(soh.empty()); break;
+                             default: keep(soh.findObject([](const std::shared_ptr<SObj>&) { return true; }, op.b % 3)); break;
+                         } break;
             }
         }
     });
@@ -400,21 +410,27 @@ void sj_dobj(const vh::Case& c, Failure& F, int reps) {
             gc::DelayedObjects<std::string> d;
             run_threads((int)c.fibers.size(), [&](int t) {
                 int own = 0;
-                for (auto& op : c.fibers[(size_t)t]) {
+                for (int pass = 0; pass < 6; ++pass) for (auto& op : c.fibers[(size_t)t]) {      // several passes: the threads' calls must overlap in time
                     jitter(op.b);
-                    int key = op.a % ((int)c.fibers.size() * 4);
+                    int key = (op.a + pass) % ((int)c.fibers.size() * 4);
                     switch (op.code % 6) {
                         case 0: if (own < 4) { int k = t * 4 + own++; futs[(size_t)k] = (k & 1) ? d.getFuture("key" + std::to_string(k)) : d.getFuture(k); } break;
-                        case 1: if (key & 1) d.setDelayedValue("key" + std::to_string(key), std::string("a-value-that-is-long-enough-to-allocate")); else d.setDelayedValue(key, std::string("a-value-that-is-long-enough-to-allocate")); break;
+                        case 1: if (op.b & 2) { const std::string lv("an-lvalue-that-is-long-enough-to-allocate"); if (key & 1) d.setDelayedValue("key" + std::to_string(key), lv); else d.setDelayedValue(key, lv); }     // copy overloads
+                                else if (key & 1) d.setDelayedValue("key" + std::to_string(key), std::string("a-value-that-is-long-enough-to-allocate")); else d.setDelayedValue(key, std::string("a-value-that-is-long-enough-to-allocate")); break;
                         case 2: d.fulfillAllPromises("fulfil-value-that-is-long-enough-to-allocate"); break;
-                        case 3: (void)d.isRecognized(key); (void)d.isCompleted("key" + std::to_string(key)); break;
+                        case 3: switch (op.b % 4) {      // exactly one query per operation: a query that forgot the lock stays unordered with the writers
+                                    case 0: keep(d.isRecognized(key)); break;
+                                    case 1: keep(d.isRecognized("key" + std::to_string(key))); break;
+                                    case 2: keep(d.isCompleted(key)); break;
+                                    default: keep(d.isCompleted("key" + std::to_string(key))); break;
+                                } break;
                         case 4: if (key & 1) d.finishedWithValue("key" + std::to_string(key)); else d.finishedWithValue(key); break;
-                        default: { int k = t * 4; if (futs[(size_t)k].valid() && futs[(size_t)k].wait_for(std::chrono::seconds(0)) == std::future_status::ready) { try { (void)futs[(size_t)k].get(); } catch (const std::future_error&) { F.report("future-error", "future_error from a DelayedObjects future"); } } break; }
+                        default: { int k = t * 4; if (futs[(size_t)k].valid() && futs[(size_t)k].wait_for(std::chrono::seconds(0)) == std::future_status::ready) { try { keep(futs[(size_t)k].get()); } catch (const std::future_error&) { F.report("future-error", "future_error from a DelayedObjects future"); } } break; }
                     }
                 }
             });
         }
-        for (auto& f : futs) if (f.valid()) { try { if (f.wait_for(std::chrono::seconds(5)) != std::future_status::ready) F.report("future-hang", "future not ready after destruction"); else (void)f.get(); } catch (const std::future_error&) { F.report("future-error", "future_error after destruction"); } }
+        for (auto& f : futs) if (f.valid()) { try { if (f.wait_for(std::chrono::seconds(5)) != std::future_status::ready) F.report("future-hang", "future not ready after destruction"); else keep(f.get()); } catch (const std::future_error&) { F.report("future-error", "future_error after destruction"); } }
     }
 }
 
@@ -468,6 +484,11 @@ vh::Outcome run_rt(const vh::Case& c0, int only_subject) {
     int sj = only_subject >= 0 ? only_subject : (c.cfg.empty() ? 0 : c.cfg[0] % SJ_N);
     int variant = c.cfg.size() > 1 ? c.cfg[1] : 0;
     int reps = 6 + (c.cfg.size() > 2 ? c.cfg[2] % 3 : 0) * 12;
+    // "solo" threads: the last one (or two) threads repeat their first operation only.  A thread that calls a single method never takes
+    // the wrapper's lock through another method, so a method that forgot the lock is unordered with every writer for the whole run
+    // (otherwise the thread's own neighbouring locked calls order most of its accesses and hide the omission from the race detector).
+    int solo = c.cfg.size() > 3 ? c.cfg[3] % 3 : 0;
+    for (int k = 0; k < solo && k + 1 < (int)c.fibers.size(); ++k) { auto& f = c.fibers[c.fibers.size() - 1 - (size_t)k]; for (auto& o : f) o = f[0]; }
     Failure F;
     CaseTimer timer;
     switch (sj) {
@@ -488,6 +509,7 @@ vh::Outcome run_rt(const vh::Case& c0, int only_subject) {
     if (F.set.load()) { out.res.violation = true; out.res.kind = F.kind; out.res.msg = F.msg; }
     out.labels.push_back(std::string("subject=") + sjname[sj]);
     out.labels.push_back("threads=" + std::to_string(c.fibers.size()));
+    if (solo) out.labels.push_back("single-method-threads=" + std::to_string(solo));
     out.nontrivial = true;      // every case ran >= 2 real threads concurrently behind a start gate
     out.sig = (uint64_t)sj * 131 + (uint64_t)reps;
     out.res.trace_hash = (uint64_t)sj;
@@ -495,7 +517,7 @@ vh::Outcome run_rt(const vh::Case& c0, int only_subject) {
 }
 
 vh::GenSpec spec(bool th) {
-    vh::GenSpec g; g.nfibers = 4; g.max_ops = th ? 6 : 4; g.ncodes = 36; g.amax = 16; g.bmax = 6; g.cfg_max = {SJ_N, 2, 3}; g.sequential = true; g.aux_len = 1;
+    vh::GenSpec g; g.nfibers = 4; g.max_ops = th ? 6 : 4; g.ncodes = 36; g.amax = 16; g.bmax = 6; g.cfg_max = {SJ_N, 2, 3, 3}; g.sequential = true; g.aux_len = 1;
     return g;
 }
 const char* RULE = "generated multi-threaded client programs (2-4 real threads behind a start gate, 6-30 repetitions, generated busy-wait jitter) over every wrapper and primitive with heap-backed "
